@@ -1,8 +1,10 @@
 (* Property C03 — demuxing any finite input terminates without panicking
    (theorems only; proofs in Proofs/SafeProofs.v and Proofs/DemuxProofs.v). *)
-From Coq Require Import ZArith List Bool.
+From Coq Require Import ZArith List Bool Lia.
 Require Import Base.Bits Base.Iter Gen.Consts Gen.Types Model.Packet Model.Pool Model.Reader Model.Demux
-  Proofs.SafeProofs Proofs.DemuxProofs.
+  Model.Pes Model.Desc Model.Psi Model.DemuxFull
+  Proofs.SafeProofs Proofs.DemuxProofs Proofs.SafeUnits Proofs.SafeDesc Proofs.SafePsi Proofs.SafeDemux Proofs.SafeBound
+  Proofs.SafeEnd.
 Import ListNotations.
 Open Scope Z_scope.
 
@@ -31,9 +33,174 @@ Theorem C03_af_safe : safe parse_packet_adaptation_field (fun a => 0 <= PacketAd
 Proof. exact safe_parse_af. Qed.
 Print Assumptions C03_af_safe.
 
-(* NOT proved here (full statements kept): no panic in the unit parsers (PES, PSI tables, descriptors) and the bound on
-   the number of calls.  Both are exercised on every run: every case runs under recover, a call cap of 3*len+8 turns
-   a non-terminating sequence into a violation, and the model — which has an explicit Panic outcome wherever Go would
-   panic — is compared with the implementation on random, mutated and truncated inputs. *)
+(* ---- the unit parsers: no panic on ANY byte string, and the only error is the generic one (in particular never the
+   models' "loop ran out of fuel" code: every loop of the models has enough fuel on every input) ---- *)
+
+(* parsePESData (data_pes.go) *)
+Theorem C03_pes_no_panic : forall bs, bytes_ok bs ->
+  match parse_pes_data_bytes bs with Panic => False | Err c => ok_code c | Ok _ => True end.
+Proof. exact parse_pes_data_no_panic. Qed.
+Print Assumptions C03_pes_no_panic.
+
+(* parseDescriptors and the 23 newDescriptor* parsers (descriptor.go), entered at any non-negative offset *)
+Theorem C03_descriptors_no_panic : forall bs, bytes_ok bs ->
+  match run_iter parse_descriptors bs with Panic => False | Err c => ok_code c | Ok _ => True end.
+Proof. exact parse_descriptors_no_panic. Qed.
+Print Assumptions C03_descriptors_no_panic.
+
+Theorem C03_descriptors_safe : safe parse_descriptors any.
+Proof. exact safe_parse_descriptors. Qed.
+Print Assumptions C03_descriptors_safe.
+
+(* parsePSIData with its sections, syntax headers, the CRC gate and the six table parsers (data_psi.go, data_pat.go,
+   data_pmt.go, data_sdt.go, data_nit.go, data_eit.go, data_tot.go) *)
+Theorem C03_psi_no_panic : forall bs, bytes_ok bs ->
+  match parse_psi_data_bytes bs with Panic => False | Err c => ok_code c | Ok _ => True end.
+Proof. exact parse_psi_data_no_panic. Qed.
+Print Assumptions C03_psi_no_panic.
+
+(* the hypotheses are met by, and the theorems say something about, e.g. a PES unit with an optional header whose
+   PES_header_data_length points past the end (error, not a panic), an ISO-639 descriptor (tag 10) of length 4, and a
+   PAT section with a wrong CRC_32 (error) *)
+Example C03_pes_example :
+  bytes_ok [0; 0; 1; 224; 0; 0; 128; 0; 200] /\ parse_pes_data_bytes [0; 0; 1; 224; 0; 0; 128; 0; 200] = Err E_generic.
+Proof. split; [repeat constructor; cbv; intuition discriminate|vm_compute; reflexivity]. Qed.
+Example C03_descriptors_example :
+  bytes_ok [240; 6; 10; 4; 101; 110; 103; 1] /\
+  exists ds, run_iter parse_descriptors [240; 6; 10; 4; 101; 110; 103; 1] = Ok ds /\ length ds = 1%nat.
+Proof. split; [repeat constructor; cbv; intuition discriminate|eexists; split; vm_compute; reflexivity]. Qed.
+Example C03_psi_example :
+  bytes_ok [0; 0; 176; 13; 0; 1; 193; 0; 0; 0; 1; 240; 0; 1; 2; 3; 4] /\
+  parse_psi_data_bytes [0; 0; 176; 13; 0; 1; 193; 0; 0; 0; 1; 240; 0; 1; 2; 3; 4] = Err E_generic.
+Proof. split; [repeat constructor; cbv; intuition discriminate|vm_compute; reflexivity]. Qed.
+
+(* ---- C03_no_panic: the whole Demuxer ---- *)
+
+(* [reachable prs skip s] (Proofs/SafeDemux.v): s is the state of a Demuxer created over bytes_ok data with any reader
+   kind (plain / seekable / bufio), with or without an injected reader fault, packet size option 0 (auto-detect) or
+   >= 188, followed by any sequence of NextPacket / NextData / Rewind, with the PES / PSI / descriptor parsers of
+   Model/Pes.v, Psi.v, Desc.v, any PacketSkipper, and no PacketsParser or one that does not itself panic.
+   In every such state neither NextPacket nor NextData panics. *)
+Theorem C03_no_panic : forall prs skip s, parser_no_panic prs -> reachable prs skip s ->
+  fst (next_packet skip s) <> Panic /\ fst (next_data full_parsers prs skip s) <> Panic.
+Proof. exact no_panic_reachable. Qed.
+Print Assumptions C03_no_panic.
+
+(* the invariant behind it, for every reachable state *)
+Theorem C03_reachable_invariant : forall prs skip s, parser_no_panic prs -> reachable prs skip s -> dinv s.
+Proof. exact reachable_inv. Qed.
+Print Assumptions C03_reachable_invariant.
+
+(* the hypotheses are satisfiable and the statement is not vacuous: one 188-byte packet on the PAT PID whose payload is a
+   pointer_field and stuffing; the state after one NextData is reachable (and that call returned ErrNoMorePackets after
+   parsing the unit); a PacketsParser that never panics *)
+Definition C03_example_stream : list Z := [71; 64; 0; 16; 0] ++ repeat 255 183.
+Example C03_no_panic_example :
+  let s0 := init_dstate (new_reader C03_example_stream None Seekable) 188 in
+  bytes_ok C03_example_stream /\ reachable None no_skip (snd (next_data full_parsers None no_skip s0)) /\
+  fst (next_data full_parsers None no_skip s0) = Err E_nomore /\
+  length (d_groups (snd (next_data full_parsers None no_skip s0))) = 1%nat /\
+  parser_no_panic (Some (fun ps => Ok ([], false))).
+Proof.
+  assert (Hb : bytes_ok C03_example_stream) by (apply bytes_okb_ok; vm_compute; reflexivity).
+  cbv zeta. split; [exact Hb|]. split; [apply reach_data; apply reach_init; [exact Hb|right; unfold C_MpegTsPacketSize; lia]|].
+  split; [vm_compute; reflexivity|]. split; [vm_compute; reflexivity|]. intros ps. discriminate.
+Qed.
+
+(* without the reachability hypothesis the statement is false (this is why C03_units_no_panic_full below cannot be a
+   theorem as it stands): a state whose packet buffer has a negative size panics in make([]byte, packetSize) *)
+Theorem C03_unreachable_state_panics :
+  exists s, fst (next_data full_parsers None no_skip s) = Panic.
+Proof.
+  exists (mk_dstate [] (Some (mk_pbuf (-1))) [] [] (new_reader [] None Plain) 0 [] []). vm_compute. reflexivity.
+Qed.
+Print Assumptions C03_unreachable_state_panics.
+
+(* ---- C03_progress / C03_bound: termination (reader that does not fail) ---- *)
+
+(* [dinv2 s] = the invariant above + the reader has no injected fault + the pool is sorted by PID; it holds of every
+   state reached from a fresh Demuxer over bytes_ok data by NextPacket / NextData (C03_nofault_invariant).
+   [potential s] = bytes left in the reader + (length of the input while no packet buffer exists) + number of buffered
+   data + for every pool entry 1 + (1 + payload length) per packet held.  [parser_bounded prs]: a PacketsParser, if
+   any, returns at most as many data as the weight (packets + payload bytes) of the group it is given. *)
+
+(* every call keeps the invariant, never increases the potential, and strictly decreases it unless it returns
+   ErrNoMorePackets: it consumed reader bytes, or popped the data buffer, or removed pool content *)
+Theorem C03_progress : forall prs skip c s, parser_no_panic prs -> parser_bounded prs -> dinv2 s ->
+  dinv2 (snd (call full_parsers prs skip c s)) /\
+  potential (snd (call full_parsers prs skip c s)) <= potential s /\
+  (fst (call full_parsers prs skip c s) <> Err E_nomore -> potential (snd (call full_parsers prs skip c s)) < potential s).
+Proof. exact call_potential. Qed.
+Print Assumptions C03_progress.
+
+Theorem C03_potential_nonneg : forall s, dinv2 s -> 0 <= potential s.
+Proof. exact potential_nonneg. Qed.
+Print Assumptions C03_potential_nonneg.
+
+Theorem C03_nofault_invariant : forall prs skip s, parser_no_panic prs -> parser_bounded prs ->
+  reachable_nofault prs skip s -> dinv2 s.
+Proof. exact reachable_nofault_inv2. Qed.
+Print Assumptions C03_nofault_invariant.
+
+(* hence: from any state, any sequence of more than potential(s) calls (NextPacket and NextData in any order, errors
+   ignored by the caller) contains one that returns ErrNoMorePackets *)
+Theorem C03_calls_reach_nomore : forall prs skip, parser_no_panic prs -> parser_bounded prs -> forall cs s, dinv2 s ->
+  potential s < Z.of_nat (length cs) -> In (Err E_nomore) (calls full_parsers prs skip cs s).
+Proof. exact calls_reach_nomore. Qed.
+Print Assumptions C03_calls_reach_nomore.
+
+(* from a fresh Demuxer (any reader kind, size option 0 or >= 188, any skipper) the potential is 2 * length input:
+   among the first 2 * length input + 1 calls — a fortiori among the first 3 * length input + 3 — one returns
+   ErrNoMorePackets *)
+Theorem C03_bound : forall prs skip data k opt cs, parser_no_panic prs -> parser_bounded prs -> bytes_ok data ->
+  (opt = 0 \/ C_MpegTsPacketSize <= opt) -> 3 * Z.of_nat (length data) + 3 <= Z.of_nat (length cs) ->
+  In (Err E_nomore) (calls full_parsers prs skip cs (init_dstate (new_reader data None k) opt)).
+Proof. exact bound_from_start_3. Qed.
+Print Assumptions C03_bound.
+
+Theorem C03_bound_2n : forall prs skip data k opt cs, parser_no_panic prs -> parser_bounded prs -> bytes_ok data ->
+  (opt = 0 \/ C_MpegTsPacketSize <= opt) -> 2 * Z.of_nat (length data) < Z.of_nat (length cs) ->
+  In (Err E_nomore) (calls full_parsers prs skip cs (init_dstate (new_reader data None k) opt)).
+Proof. exact bound_from_start. Qed.
+Print Assumptions C03_bound_2n.
+
+(* the first ErrNoMorePackets of NextData leaves nothing buffered, nothing pooled and nothing in the reader, and from
+   then on EVERY call, of either kind, with any parsers / skipper, returns ErrNoMorePackets *)
+Theorem C03_nomore_absorbing : forall prs skip s, dinv2 s -> fst (next_data full_parsers prs skip s) = Err E_nomore ->
+  forall P' prs' skip' cs, Forall (fun x => x = Err E_nomore) (calls P' prs' skip' cs (snd (next_data full_parsers prs skip s))).
+Proof. exact nomore_absorbing. Qed.
+Print Assumptions C03_nomore_absorbing.
+
+(* NextPacket returns ErrNoMorePackets only when the reader is used up (a truncated final packet is consumed and
+   treated as end of stream), and then keeps returning it *)
+Theorem C03_packet_nomore_stable : forall skip s, dinv2 s -> fst (next_packet skip s) = Err E_nomore ->
+  rem (d_reader (snd (next_packet skip s))) = 0 /\
+  forall skip', fst (next_packet skip' (snd (next_packet skip s))) = Err E_nomore.
+Proof. intros skip s Hs E. split; [exact (next_packet_nomore skip s Hs E)|exact (next_packet_nomore_stable skip s Hs E)]. Qed.
+Print Assumptions C03_packet_nomore_stable.
+
+(* a truncated final packet (fewer bytes left than the packet size) is end of stream, not an error, and is consumed *)
+Theorem C03_truncated_tail : forall skip s pb, dinv2 s -> d_pb s = Some pb -> rem (d_reader s) < pb_size pb ->
+  fst (next_packet skip s) = Err E_nomore /\ rem (d_reader (snd (next_packet skip s))) = 0.
+Proof. exact truncated_tail. Qed.
+Print Assumptions C03_truncated_tail.
+
+(* hypotheses satisfiable, statements not vacuous: the one-packet stream above followed by a truncated packet (100 bytes):
+   NextData parses the unit, reaches the truncated tail and returns ErrNoMorePackets; potential 576 at the start;
+   the never-panicking, never-producing PacketsParser is bounded *)
+Example C03_bound_example :
+  let data := C03_example_stream ++ repeat 71 100 in
+  let s0 := init_dstate (new_reader data None Plain) 188 in
+  dinv2 s0 /\ potential s0 = 576 /\
+  calls full_parsers None no_skip [CallData; CallPacket; CallData] s0 = [Err E_nomore; Err E_nomore; Err E_nomore] /\
+  parser_bounded (Some (fun ps => Ok ([], false))).
+Proof.
+  cbv zeta. split; [apply init_inv2; [apply bytes_okb_ok; vm_compute; reflexivity|right; unfold C_MpegTsPacketSize; lia]|].
+  split; [vm_compute; reflexivity|]. split; [vm_compute; reflexivity|].
+  intros ps ds b E. inversion E; subst. cbn [length]. apply gw_nonneg.
+Qed.
+
+(* The statement this file carried before C03_no_panic was proved, kept for the record: over ALL states and ALL unit
+   parsers it is false (C03_unreachable_state_panics); its provable content is C03_no_panic. *)
 Definition C03_units_no_panic_full : Prop := forall P prs skip s,
   fst (next_data P prs skip s) <> Panic.
